@@ -525,6 +525,31 @@ fn main() {
                 Err(_) => println!("{}", json!({"panic": true})),
             }
         }
+        "aisle" => {
+            // aisle <text>: the aisle configuration parser through the public API
+            let text = args[2].replace("\\n", "\n");
+            match std::panic::catch_unwind(|| match cooklang::aisle::parse(&text) {
+                Ok(conf) => json!({"categories": conf.categories.iter().map(|c| json!([c.name, c.ingredients.iter().map(|i| i.names.clone()).collect::<Vec<_>>()])).collect::<Vec<_>>()}),
+                Err(e) => json!({"error_kind": match e { cooklang::aisle::AisleConfError::Parse { .. } => "Parse", cooklang::aisle::AisleConfError::DuplicateCategory { .. } => "DuplicateCategory", cooklang::aisle::AisleConfError::DuplicateIngredient { .. } => "DuplicateIngredient" }}),
+            }) {
+                Ok(v) => println!("{}", v),
+                Err(_) => println!("{}", json!({"panic": true})),
+            }
+        }
+        "tags" => {
+            // tags <json string | json list>: the tags accessor on a YAML string or sequence
+            use cooklang::metadata::CooklangValueExt;
+            let j: serde_json::Value = serde_json::from_str(&args[2]).expect("json");
+            let v = match &j {
+                serde_json::Value::String(s) => serde_yaml::Value::String(s.clone()),
+                serde_json::Value::Array(a) => serde_yaml::Value::Sequence(a.iter().map(|x| serde_yaml::Value::String(x.as_str().unwrap().to_string())).collect()),
+                _ => serde_yaml::Value::Null,
+            };
+            match std::panic::catch_unwind(|| v.as_tags().map(|t| t.into_iter().map(|c| c.to_string()).collect::<Vec<_>>())) {
+                Ok(t) => println!("{}", json!({"tags": t})),
+                Err(_) => println!("{}", json!({"panic": true})),
+            }
+        }
         "time_renamed" => {
             // time_renamed <metre|minute> <string>: the duration accessor with a converter whose time units are renamed;
             // `m` is the metre (and no unit is called min/minute/minutes) or `m` is the minute
